@@ -4,6 +4,7 @@
 //   stringify <seed> <n> <out>                  random trees built through the Value API -> Stringify -> Parse -> Stringify
 //   deep      <levels>                          nesting depth probe (prints ACCEPTED / REJECTED)
 #include "common.hpp"
+#include <deque>
 #include "JSON.hpp"
 
 using namespace Qentem;
@@ -331,6 +332,56 @@ static Value<Ch> rnd_tree(vf::Rng &rng, int depth) {
     }
     return v;
 }
+// builds the representation a QStringifyImpl state describes: {"t":"s"|"U"|"P"|"A"|"O", "to":.., "e":[..], "s":[{"k":n,"live":bool,"v":..}]}
+static void sbuild(const Value<char> &d, Value<char> &out, std::deque<Value<char>> &targets) {
+    const Value<char> *tv = d.GetValue("t", 1);
+    const char        *t;
+    SizeT              tl;
+    if (tv == nullptr || !tv->SetCharAndLength(t, tl) || tl != 1) return;
+    switch (t[0]) {
+        case 's': out = (SizeT64)1; break;
+        case 'U': break;
+        case 'P': {
+            targets.emplace_back();
+            Value<char> &target = targets.back();
+            sbuild(*d.GetValue("to", 2), target, targets);
+            out.SetPointerToValue(&target);
+            break;
+        }
+        case 'A': {
+            out = Value<char>::ArrayT();
+            const Value<char> *e = d.GetValue("e", 1);
+            std::vector<SizeT> undef;
+            for (SizeT i = 0; e != nullptr && i < e->Size(); ++i) {
+                Value<char> item;
+                sbuild(*e->GetValue(i), item, targets);
+                out += (SizeT64)0;                                                     // a placeholder element ...
+                if (item.Type() == ValueType::Undefined) undef.push_back(i);           // ... removed again below: an Undefined element
+                else *out.GetValue(out.Size() - 1) = Memory::Move(item);               // ... or replaced (+= of a container would merge)
+            }
+            for (SizeT i : undef) out.RemoveIndex(i);
+            break;
+        }
+        default: {
+            out = Value<char>::ObjectT();
+            const Value<char> *sl = d.GetValue("s", 1);
+            std::vector<std::string> dead;
+            for (SizeT i = 0; sl != nullptr && i < sl->Size(); ++i) {
+                const Value<char> *slot = sl->GetValue(i);
+                std::string        key  = "k" + std::to_string((long)slot->GetValue("k", 1)->GetNumber());
+                if (slot->GetValue("live", 4)->IsTrue()) {
+                    Value<char> item;
+                    sbuild(*slot->GetValue("v", 1), item, targets);
+                    out[key.c_str()] = Memory::Move(item);
+                } else {
+                    out[(key + "d" + std::to_string((long)i)).c_str()] = (SizeT64)9;     // a member that is removed again: leaves a dead slot here
+                    dead.push_back(key + "d" + std::to_string((long)i));
+                }
+            }
+            for (const std::string &k : dead) out.Remove(k.c_str());
+        }
+    }
+}
 template <typename Ch>
 static void stringify_case(FILE *out, vf::Rng &rng, int w) {
     using U = typename std::make_unsigned<Ch>::type;
@@ -440,6 +491,45 @@ int main(int argc, char **argv) {
         printf("EVENTS %ld\n", g_events);
         vf::Ledger &l = vf::ledger();
         printf("LEDGER allocs=%ld frees=%ld live=%zu badfree=%ld\n", l.allocs, l.frees, l.live.size(), l.bad_free);
+    } else if (mode == "sreplay" && argc >= 4) {
+        // spec -> code (E2): every state of QStringifyImpl is built through the public API (dead slots, Undefined elements, pointers) and
+        // stringified after the state's previous stream content; the text must be the model's tokens.   line: description \t before \t expected
+        FILE *in  = fopen(argv[2], "r");
+        FILE *out = fopen(argv[3], "w");
+        std::string line;
+        long        n = 0, bad = 0;
+        int         ch;
+        while (in != nullptr) {
+            line.clear();
+            while ((ch = fgetc(in)) != EOF && ch != '\n') line.push_back((char)ch);
+            if (line.empty() && ch == EOF) break;
+            size_t t1 = line.find('\t'), t2 = line.find('\t', t1 + 1);
+            if (t1 == std::string::npos || t2 == std::string::npos) continue;
+            std::string desc = line.substr(0, t1), before = line.substr(t1 + 1, t2 - t1 - 1), expected = line.substr(t2 + 1);
+            vf::begin_case(n);
+            snprintf(vf::g_desc, sizeof(vf::g_desc), "sreplay %ld", n);
+            {
+                Value<char>            d = JSON::Parse(desc.c_str(), (SizeT)desc.size());
+                std::deque<Value<char>> targets;   // pointees (stable addresses), destroyed after the tree
+                Value<char>            tree;
+                sbuild(d, tree, targets);
+                StringStream<char> ss;
+                ss.Write(before.c_str(), (SizeT)before.size());
+                tree.Stringify(ss, 17);
+                std::string got(ss.First(), ss.Length());
+                if (got != expected) {
+                    ++bad;
+                    fprintf(out, "{\"n\":%ld,\"desc\":%s}\n", n, desc.c_str());
+                    if (bad <= 20) printf("MISMATCH state %ld got=%s expected=%s\n", n, got.c_str(), expected.c_str());
+                }
+                tree.Reset();
+            }
+            ++n;
+            if (ch == EOF) break;
+        }
+        if (in) fclose(in);
+        if (out) fclose(out);
+        printf("STATES %ld MISMATCHES %ld\nDONE\n", n, bad);
     } else if (mode == "deep" && argc >= 3) {
         long              levels = atol(argv[2]);
         std::vector<long> t;
